@@ -4,9 +4,20 @@ mod ctx;
 mod node;
 
 mod c01;
+mod c04;
+mod c05;
+mod c06;
+mod c07;
+mod c09;
+mod c11;
 mod c12;
+mod c13;
+mod c14;
 mod c15;
 mod c16;
+mod c17;
+mod c18;
+mod c19;
 
 use ctx::Ctx;
 use vcore::Report;
@@ -48,9 +59,20 @@ fn main() {
     let mut report = Report::new(&prop);
     match prop.as_str() {
         "C01" => c01::run(&ctx, &mut report),
+        "C04" => c04::run(&ctx, &mut report),
+        "C05" => c05::run(&ctx, &mut report),
+        "C06" => c06::run(&ctx, &mut report),
+        "C07" => c07::run(&ctx, &mut report),
+        "C09" => c09::run(&ctx, &mut report),
+        "C11" => c11::run(&ctx, &mut report),
         "C12" => c12::run(&ctx, &mut report),
+        "C13" => c13::run(&ctx, &mut report),
+        "C14" => c14::run(&ctx, &mut report),
         "C15" => c15::run(&ctx, &mut report),
         "C16" => c16::run(&ctx, &mut report),
+        "C17" => c17::run(&ctx, &mut report),
+        "C18" => c18::run(&ctx, &mut report),
+        "C19" => c19::run(&ctx, &mut report),
         _ => {
             eprintln!("no runtime monitor for {}", prop);
             std::process::exit(2);
